@@ -1,6 +1,354 @@
-//! Reference lexer for macro-free open code (C11) — see DESIGN.md §4.C11. Filled in later.
+//! Reference lexer for macro-free open code (C11): a direct longest-match reading of the open-code
+//! grammar of DESIGN.md §4.C11. Used only to confirm solver counterexamples natively.
+//! Returns no verdict (empty list) when the text contains a macro trigger or a numeric spelling
+//! whose span depends on the third-party parser's corner cases.
 use crate::Run;
+use sas_lexer::error::ErrorKind;
+use sas_lexer::{TokenChannel, TokenType};
+use unicode_ident::{is_xid_continue, is_xid_start};
 
-pub fn compare(_r: &Run) -> Vec<String> {
-    Vec::new()
+#[derive(Debug, Clone, Copy, PartialEq)]
+enum Class {
+    Exact(TokenType),
+    Ident,
+    Numeric,
+}
+
+struct RTok {
+    class: Class,
+    ch: TokenChannel,
+    s: usize,
+    e: usize,
+}
+
+fn name_start(c: char) -> bool {
+    c == '_' || is_xid_start(c)
+}
+
+pub fn macro_free(chars: &[char]) -> bool {
+    let n = chars.len();
+    let mut i = 0;
+    while i < n {
+        if chars[i] == '%' && i + 1 < n && (chars[i + 1] == '*' || name_start(chars[i + 1])) {
+            return false;
+        }
+        if chars[i] == '&' {
+            let mut j = i;
+            while j < n && chars[j] == '&' {
+                j += 1;
+            }
+            if j < n && name_start(chars[j]) {
+                return false;
+            }
+            i = j;
+            continue;
+        }
+        i += 1;
+    }
+    true
+}
+
+fn suffix(chars: &[char], i: usize) -> (TokenType, usize) {
+    let c = chars.get(i).copied().unwrap_or(' ');
+    match c {
+        'b' | 'B' => (TokenType::BitTestingLiteral, 1),
+        'd' | 'D' => {
+            if matches!(chars.get(i + 1), Some('t' | 'T')) {
+                (TokenType::DateTimeLiteral, 2)
+            } else {
+                (TokenType::DateLiteral, 1)
+            }
+        }
+        'n' | 'N' => (TokenType::NameLiteral, 1),
+        't' | 'T' => (TokenType::TimeLiteral, 1),
+        'x' | 'X' => (TokenType::HexStringLiteral, 1),
+        _ => (TokenType::StringLiteral, 0),
+    }
+}
+
+/// None = no verdict
+fn reference(src: &str) -> Option<(Vec<RTok>, Vec<(ErrorKind, usize)>)> {
+    let chars: Vec<char> = src.chars().collect();
+    let mut boff: Vec<usize> = Vec::with_capacity(chars.len() + 1);
+    let mut b = 0;
+    for c in &chars {
+        boff.push(b);
+        b += c.len_utf8();
+    }
+    boff.push(b);
+    if !macro_free(&chars) {
+        return None;
+    }
+    let n = chars.len();
+    let mut toks = Vec::new();
+    let mut errs = Vec::new();
+    let mut i = if chars.first() == Some(&'\u{feff}') { 1 } else { 0 };
+    let mut pending = false;
+    let mut prev_default_semi = true; // none counts as statement start
+    while i < n {
+        let c = chars[i];
+        let nx = chars.get(i + 1).copied();
+        let s = i;
+        let (class, ch, e): (Class, TokenChannel, usize);
+        if c.is_whitespace() {
+            let mut j = i;
+            while j < n && chars[j].is_whitespace() {
+                j += 1;
+            }
+            (class, ch, e) = (Class::Exact(TokenType::WS), TokenChannel::HIDDEN, j);
+        } else if c == '/' && nx == Some('*') {
+            let mut j = i + 2;
+            let mut end = None;
+            while j + 1 < n {
+                if chars[j] == '*' && chars[j + 1] == '/' {
+                    end = Some(j + 2);
+                    break;
+                }
+                j += 1;
+            }
+            let e2 = end.unwrap_or(n);
+            if end.is_none() {
+                errs.push((ErrorKind::UnterminatedComment, boff[n]));
+            }
+            (class, ch, e) = (Class::Exact(TokenType::CStyleComment), TokenChannel::COMMENT, e2);
+        } else if c == '\'' || c == '"' {
+            let mut j = i + 1;
+            let mut close = None;
+            while j < n {
+                if chars[j] == c {
+                    if chars.get(j + 1) == Some(&c) {
+                        j += 2;
+                        continue;
+                    }
+                    close = Some(j);
+                    break;
+                }
+                j += 1;
+            }
+            match close {
+                Some(q) => {
+                    let (tt, sl) = suffix(&chars, q + 1);
+                    (class, ch, e) = (Class::Exact(tt), TokenChannel::DEFAULT, q + 1 + sl);
+                }
+                None => {
+                    errs.push((ErrorKind::UnterminatedStringLiteral, boff[n]));
+                    (class, ch, e) = (Class::Exact(TokenType::StringLiteral), TokenChannel::DEFAULT, n);
+                }
+            }
+        } else if c == ';' {
+            (class, ch, e) = (Class::Exact(TokenType::SEMI), TokenChannel::DEFAULT, i + 1);
+        } else if c.is_ascii_digit() || (c == '.' && nx.map_or(false, |d| d.is_ascii_digit())) {
+            // decimal notation
+            let mut j = i;
+            while j < n && chars[j].is_ascii_digit() {
+                j += 1;
+            }
+            let int_len = j - i;
+            if j < n && chars[j] == '.' {
+                j += 1;
+                while j < n && chars[j].is_ascii_digit() {
+                    j += 1;
+                }
+            }
+            if j < n && matches!(chars[j], 'e' | 'E') {
+                let mut k = j + 1;
+                if k < n && matches!(chars[k], '+' | '-') {
+                    k += 1;
+                }
+                let ds = k;
+                while k < n && chars[k].is_ascii_digit() {
+                    k += 1;
+                }
+                if k > ds {
+                    j = k;
+                } else {
+                    return None; // empty exponent: the third-party parser's error span decides
+                }
+            }
+            let dec_len = j - i;
+            let mut h = i;
+            while c != '.' && h < n && chars[h].is_ascii_hexdigit() {
+                h += 1;
+            }
+            let hex_len = h - i;
+            if int_len > 19 || hex_len > 15 {
+                return None; // overflow fallbacks
+            }
+            let is_x = |p: usize| matches!(chars.get(p), Some('x' | 'X'));
+            let e2 = if hex_len > dec_len || (hex_len == dec_len && hex_len > 0 && is_x(i + hex_len)) {
+                if is_x(i + hex_len) {
+                    i + hex_len + 1
+                } else {
+                    errs.push((ErrorKind::UnterminatedHexNumericLiteral, boff[i + hex_len]));
+                    i + hex_len
+                }
+            } else {
+                i + dec_len
+            };
+            (class, ch, e) = (Class::Numeric, TokenChannel::DEFAULT, e2);
+        } else if name_start(c) {
+            let mut j = i;
+            while j < n && (if chars[j].is_ascii() { chars[j].is_ascii_alphanumeric() || chars[j] == '_' } else { is_xid_continue(chars[j]) }) {
+                j += 1;
+            }
+            let word: String = chars[i..j].iter().collect::<String>().to_ascii_uppercase();
+            let dl4 = matches!(word.as_str(), "DATALINES4" | "CARDS4" | "LINES4");
+            let dl = dl4 || matches!(word.as_str(), "DATALINES" | "CARDS" | "LINES");
+            let mut k = j;
+            while k < n && chars[k].is_whitespace() {
+                k += 1;
+            }
+            if dl && prev_default_semi && k < n && chars[k] == ';' {
+                toks.push(RTok { class: Class::Exact(TokenType::DatalinesStart), ch: TokenChannel::DEFAULT, s, e: k + 1 });
+                let ds = k + 1;
+                let mut m = ds;
+                let mut found = None;
+                while m < n {
+                    if chars[m] == ';' && (!dl4 || (m + 3 < n && chars[m + 1] == ';' && chars[m + 2] == ';' && chars[m + 3] == ';')) {
+                        found = Some(m);
+                        break;
+                    }
+                    m += 1;
+                }
+                let de = found.unwrap_or(n);
+                toks.push(RTok { class: Class::Exact(TokenType::DatalinesData), ch: TokenChannel::DEFAULT, s: ds, e: de });
+                let te = match found {
+                    Some(f) => f + if dl4 { 4 } else { 1 },
+                    None => {
+                        errs.push((ErrorKind::UnterminatedDatalines, boff[n]));
+                        n
+                    }
+                };
+                toks.push(RTok { class: Class::Exact(TokenType::SEMI), ch: TokenChannel::DEFAULT, s: de, e: te });
+                i = te;
+                pending = false;
+                prev_default_semi = true;
+                continue;
+            }
+            (class, ch, e) = (Class::Ident, TokenChannel::DEFAULT, j);
+        } else if c == '*' && !pending {
+            let mut j = i + 1;
+            while j < n && chars[j] != ';' {
+                j += 1;
+            }
+            let e2 = if j < n { j + 1 } else { n };
+            (class, ch, e) = (Class::Exact(TokenType::PredictedCommentStat), TokenChannel::COMMENT, e2);
+        } else if c == '$' {
+            let mut j = i + 1;
+            if j < n && name_start(chars[j]) {
+                j += 1;
+                while j < n && is_xid_continue(chars[j]) {
+                    j += 1;
+                }
+            }
+            while j < n && chars[j].is_ascii_digit() {
+                j += 1;
+            }
+            if j < n && chars[j] == '.' {
+                j += 1;
+                while j < n && chars[j].is_ascii_digit() {
+                    j += 1;
+                }
+                (class, ch, e) = (Class::Exact(TokenType::CharFormat), TokenChannel::DEFAULT, j);
+            } else {
+                (class, ch, e) = (Class::Exact(TokenType::DOLLAR), TokenChannel::DEFAULT, i + 1);
+            }
+        } else if c == '&' {
+            let mut j = i;
+            while j < n && chars[j] == '&' {
+                j += 1;
+            }
+            (class, ch, e) = (Class::Exact(TokenType::AMP), TokenChannel::DEFAULT, j);
+        } else {
+            use TokenType::*;
+            let two = |a: TokenType| (Class::Exact(a), TokenChannel::DEFAULT, i + 2);
+            let one = |a: TokenType| (Class::Exact(a), TokenChannel::DEFAULT, i + 1);
+            (class, ch, e) = match (c, nx) {
+                ('*', Some('*')) => two(STAR2),
+                ('*', _) => one(STAR),
+                ('!', Some('!')) => two(EXCL2),
+                ('!', _) => one(EXCL),
+                ('¦', Some('¦')) => two(BPIPE2),
+                ('¦', _) => one(BPIPE),
+                ('|', Some('|')) => two(PIPE2),
+                ('|', _) => one(PIPE),
+                ('¬' | '^' | '~' | '∘', Some('=')) => two(NE),
+                ('¬' | '^' | '~' | '∘', _) => one(NOT),
+                ('<', Some('=')) => two(LE),
+                ('<', Some('>')) => two(LTGT),
+                ('<', _) => one(LT),
+                ('>', Some('=')) => two(GE),
+                ('>', Some('<')) => two(GTLT),
+                ('>', _) => one(GT),
+                ('=', Some('*')) => two(SoundsLike),
+                ('=', _) => one(ASSIGN),
+                ('/', _) => one(FSLASH),
+                ('%', _) => one(PERCENT),
+                ('(', _) => one(LPAREN),
+                (')', _) => one(RPAREN),
+                ('{', _) => one(LCURLY),
+                ('}', _) => one(RCURLY),
+                ('[', _) => one(LBRACK),
+                (']', _) => one(RBRACK),
+                ('+', _) => one(PLUS),
+                ('-', _) => one(MINUS),
+                ('.', _) => one(DOT),
+                (',', _) => one(COMMA),
+                (':', _) => one(COLON),
+                ('@', _) => one(AT),
+                ('#', _) => one(HASH),
+                ('?', _) => one(QUESTION),
+                _ => (Class::Exact(CatchAll), TokenChannel::HIDDEN, i + 1),
+            };
+        }
+        toks.push(RTok { class, ch, s, e });
+        if ch == TokenChannel::DEFAULT {
+            prev_default_semi = class == Class::Exact(TokenType::SEMI);
+            pending = class != Class::Exact(TokenType::SEMI);
+        } else if class == Class::Exact(TokenType::CatchAll) {
+            pending = true;
+        }
+        i = e;
+    }
+    // char indices -> byte offsets
+    for t in &mut toks {
+        t.s = boff[t.s];
+        t.e = boff[t.e];
+    }
+    Some((toks, errs))
+}
+
+fn is_kw(tt: TokenType) -> bool {
+    let n = format!("{tt:?}");
+    n.starts_with("Kw") && !n.starts_with("Kwm")
+}
+
+pub fn compare(r: &Run) -> Vec<String> {
+    let Some((rt, rerr)) = reference(&r.src) else {
+        return Vec::new();
+    };
+    let mut v = Vec::new();
+    let actual: Vec<_> = r.toks.iter().filter(|t| t.tt != TokenType::EOF).collect();
+    if actual.len() != rt.len() {
+        let k = actual.iter().zip(rt.iter()).position(|(a, b)| a.bs != b.s || a.be != b.e).unwrap_or(actual.len().min(rt.len()));
+        v.push(format!("open-code grammar gives {} tokens, lexer {}; first difference at token {} (lexer {:?})", rt.len(), actual.len(), k, actual.get(k).map(|a| (a.tt, a.bs, a.be))));
+        return v;
+    }
+    for (a, b) in actual.iter().zip(rt.iter()) {
+        let class_ok = match b.class {
+            Class::Exact(tt) => a.tt == tt,
+            Class::Ident => a.tt == TokenType::Identifier || is_kw(a.tt),
+            Class::Numeric => matches!(a.tt, TokenType::IntegerLiteral | TokenType::FloatLiteral | TokenType::FloatExponentLiteral),
+        };
+        if !class_ok || a.ch != b.ch || a.bs != b.s || a.be != b.e {
+            v.push(format!("token {} is {:?}/{:?} [{}..{}] but the open-code grammar reads {:?}/{:?} [{}..{}]", a.idx, a.tt, a.ch, a.bs, a.be, b.class, b.ch, b.s, b.e));
+            return v;
+        }
+    }
+    let watched = [ErrorKind::UnterminatedComment, ErrorKind::UnterminatedStringLiteral, ErrorKind::UnterminatedDatalines, ErrorKind::UnterminatedHexNumericLiteral];
+    let act: Vec<(ErrorKind, usize)> = r.errors.iter().filter(|e| watched.contains(&e.error_kind())).map(|e| (e.error_kind(), e.at_byte_offset() as usize)).collect();
+    if act != rerr {
+        v.push(format!("errors {:?} but the open-code grammar gives {:?}", act, rerr));
+    }
+    v
 }
